@@ -165,6 +165,26 @@ struct Row {
 	bool operator==(const Row& r) const { return id == r.id && name == r.name && score == r.score; }
 };
 
+// byte containers: a list of blobs in the middle, a blob as the LAST member (nothing is written after its payload)
+struct BinDoc {
+	int id = 0;
+	std::vector<std::vector<unsigned char>> parts;
+	std::string note;
+	std::vector<unsigned char> blob;
+	template <class TArchive> void Serialize(TArchive& archive) {
+		archive << KeyValue("id", id) << KeyValue("parts", parts) << KeyValue("note", note) << KeyValue("blob", blob);
+	}
+};
+
+inline BinDoc make_bindoc(unsigned seed) {
+	BinDoc d;
+	d.id = static_cast<int>(seed);
+	for (unsigned i = 0; i < 2; ++i) { std::vector<unsigned char> p; for (unsigned k = 0; k < 3 + i; ++k) p.push_back(static_cast<unsigned char>(seed * 37 + k * 11 + i)); d.parts.push_back(p); }
+	d.note = "n" + std::to_string(seed);
+	for (unsigned k = 0; k < 20 + seed; ++k) d.blob.push_back(static_cast<unsigned char>(k * 13 + seed));
+	return d;
+}
+
 inline Doc make_doc(unsigned seed) {
 	Doc d;
 	d.flag = (seed & 1) != 0;
